@@ -13,7 +13,8 @@ Lemma Gen_tls_ok :
   tls_verify_shape = expected_verify_shape /\
   tls_verify_cert_accessor = CURRENT_CERT /\
   tls_proceed_failure_calls = expected_proceed_failure_calls /\
-  tls_legacy_failure_calls = expected_legacy_failure_calls.
+  tls_legacy_failure_calls = expected_legacy_failure_calls /\
+  tls_domain_written_in = expected_domain_writers.
 Proof. vm_compute. repeat split; reflexivity. Qed.
 
 Lemma verify_setting_eq : forall t, verify_setting t = if t then (SSL_VERIFY_NONE, 0) else (SSL_VERIFY_PEER, 1).
